@@ -24,13 +24,20 @@ Ltac bits d :=
          | |- context [run_of d =? ?r] => let v := fresh "q" in set (v := run_of d =? r) in *; clearbody v
          end.
 
+Ltac finish_bits :=
+  repeat match goal with v : bool |- _ => destruct v end; cbn [andb orb negb] in *;
+  repeat match goal with
+         | H : true = true -> _ |- _ => specialize (H eq_refl)
+         | H : false = true -> _ |- _ => clear H
+         end;
+  try reflexivity; try discriminate; try tauto; try (intuition congruence).
+
 Ltac crush G d :=
+  repeat match goal with H : context [run_steps] |- _ => clear H end;
   destruct G as (G1 & G2 & G3 & G4 & G5);
   specialize (G1 d); specialize (G2 d); specialize (G3 d); specialize (G4 d); specialize (G5 d);
   repeat (progress rewrite ?mem_addl, ?mem_reml, ?mem_inter, ?mem_filter, ?mem_order_by in * );
-  bits d;
-  repeat match goal with v : bool |- _ => destruct v end; simpl in *;
-  try tauto; try (intuition congruence).
+  bits d; finish_bits.
 
 (* phase one of a purge *)
 Lemma good_db_prune : forall b l,
@@ -347,19 +354,22 @@ Proof.
   split; [rewrite mem_filter, Q, andb_false_r; reflexivity|]. split; [|split].
   - assert (K : mem d (reml (order_by ord (inter (addl (inter (filter (fun d0 => run_of d0 =? r) (d_ds (cdb u))) (d_loc (cdb u))) (d_trash (cdb u)))
                                                  (d_recs (cdb u)))) (d_recs (cdb u))) = false).
-    { destruct G as (G1 & G2 & G3 & G4 & G5).
+    { repeat match goal with H : context [run_steps] |- _ => clear H end.
+      destruct G as (G1 & G2 & G3 & G4 & G5).
       specialize (G1 d); specialize (G2 d); specialize (G3 d); specialize (G4 d); specialize (G5 d).
       rewrite ?mem_reml, ?mem_order_by, ?mem_inter, ?mem_addl, ?mem_inter, ?mem_filter, Q in *.
-      bits d. repeat match goal with v : bool |- _ => destruct v end; simpl in *; try tauto; intuition congruence. }
+      bits d. finish_bits. }
     rewrite K. cbn [andb].
+    repeat match goal with H : context [run_steps] |- _ => clear H end.
     destruct G as (G1 & G2 & G3 & G4 & G5).
     specialize (G1 d); specialize (G2 d); specialize (G3 d); specialize (G4 d); specialize (G5 d).
     rewrite ?mem_reml, ?mem_order_by, ?mem_inter, ?mem_addl, ?mem_inter, ?mem_filter, Q in *.
-    bits d. repeat match goal with v : bool |- _ => destruct v end; simpl in *; repeat split; try tauto; intuition congruence.
+    bits d. repeat split; finish_bits.
   - intros K. apply F. unfold knows in K.
+    repeat match goal with H : context [run_steps] |- _ => clear H end.
     destruct G as (G1 & G2 & G3 & G4 & G5).
     specialize (G1 d); specialize (G2 d); specialize (G3 d); specialize (G4 d); specialize (G5 d).
     rewrite ?mem_reml, ?mem_order_by, ?mem_inter, ?mem_addl, ?mem_inter, ?mem_filter, Q in *.
-    bits d. repeat match goal with v : bool |- _ => destruct v end; simpl in *; try tauto; intuition congruence.
+    bits d. finish_bits.
   - rewrite mem_rem, N.eqb_refl, andb_false_r. reflexivity.
 Qed.
